@@ -1,4 +1,4 @@
-import CssVerif.Model.Num
+import CssVerif.Model.NumF64
 /-!
 # K4 `Val`, colours — model of `ColorValue._setCssText` and of the colour serializers (C18)
 
